@@ -32,6 +32,7 @@ from exabgp.configuration.core import Section
 from exabgp.configuration.schema import ActionKey, ActionOperation, ActionTarget, Container, Leaf, LeafList, ValueType
 
 # from exabgp.configuration.static.parser import inet
+from exabgp.bgp.message.update.collection import validate_announce_nlri
 from exabgp.configuration.static.parser import prefix
 from exabgp.configuration.static.parser import attribute
 from exabgp.configuration.static.parser import next_hop
@@ -371,6 +372,12 @@ class ParseStaticRoute(Section):
                 # Recreate NLRI with correct type based on actual RD/labels presence
                 # instead of mutating SAFI after creation
                 route.nlri = self._normalize_nlri_type(route.nlri)
+                if self.parser.tokeniser.announce:
+                    # a route which cannot be put on the wire (no next hop, no label, no rd) is refused here, with its
+                    # line: accepted, it raised in the peer loop each time the routes were sent and the session never held
+                    error = validate_announce_nlri(route.nlri, route.nexthop)
+                    if error:
+                        return self.error.set(error)
                 self.scope.append_route(route)
         return True
 
